@@ -34,14 +34,17 @@ Proj(t) == [state |-> t.state, values |-> t.values]
 TFinal ==
   /\ IsOpt /\ done /\ Consume /\ Ev.a = "final"
   /\ Ev.trials = [n \in 1..Len(trials) |-> Proj(trials[n])]
-  /\ Ev.cbA = cbA /\ Ev.cbB = cbB /\ Ev.raised = raised
+  /\ Ev.cbA = cbA /\ Ev.cbB = cbB
+  \* which exception surfaces when the SAMPLER raised is not part of the property: something has to escape
+  /\ IF Ev.raised = raised THEN TRUE
+     ELSE raised = "SE" /\ Ev.raised \notin {"none", "E1", "E2", "KI", "SE", "CE"} /\ PrintT(<<"OTHEREXC", Trace.tid, l>>)
   /\ UNCHANGED loopvars
 
 TTellCall ==
   /\ IsTell /\ Consume /\ Ev.a = "tell"
   /\ Ev.pre = Proj(trials[1])
   /\ TellPropOK(Ev, c.nobj)
-  /\ TellTableOK(Ev, c.nobj) \/ PrintT(<<"DRIFT", Trace.tid, l>>)
+  /\ IF TellTableOK(Ev, c.nobj) THEN TRUE ELSE PrintT(<<"DRIFT", Trace.tid, l>>)
   /\ trials' = [trials EXCEPT ![1].state = Ev.post.state, ![1].values = Ev.post.values]
   /\ UNCHANGED <<i, stop, cbA, cbB, raised, phase, done>>
 
